@@ -775,7 +775,22 @@ def lateattr(tier, seed, ci, nc):
     return _slice(gen(), ci, nc)
 
 
-STREAMS.update({'preempt': preempt, 'lateattr': lateattr})
+def redecorate(tier, seed, ci, nc):
+    alphabet = ('sig', 'bind1', 'bind2', 'call', 'sigb')
+    L = 2 if tier == 'quick' else 3
+
+    def gen():
+        for sc in ('pos_self_a', 'pos_self', 'kwo_b', 'kwo_over_end', 'auto'):
+            for redeco in ('none', 'annotate', 'annotate_ret', 'kwoargs'):
+                if redeco == 'kwoargs' and sc in ('kwo_b', 'auto'):
+                    continue      # b is keyword-only already: not an admissible step
+                for n in range(L + 1):
+                    for h in itertools.product(alphabet, repeat=n):
+                        yield ('rt:redecorate', sc, h, redeco)
+    return _slice(gen(), ci, nc)
+
+
+STREAMS.update({'preempt': preempt, 'lateattr': lateattr, 'redecorate': redecorate})
 
 
 def threads_rt(tier, seed, ci, nc):
@@ -1094,7 +1109,7 @@ def partialfwd(tier, seed, ci, nc, count=400):
     rng = _rng(seed, 'partialfwd', ci)
     univ = [s for s in U('xy', 2) if not any(p[0] in ('a', 'cb', 'target', 'args', 'kwargs') and p[1] not in ('vp', 'vk') for p in s)]
     for k in range(count // nc):
-        tmpl = ('posparam', 'kwdefault', 'kwbound', 'globnone', 'globkw', 'globpos')[k % 6]
+        tmpl = ('posparam', 'kwdefault', 'kwbound', 'globnone', 'globkw', 'globpos', 'kwleading')[k % 7]
         yield ('rt:partialfwd', tmpl, rng.choice(univ), rng.choice(univ), rng.choice([0, 0, 1]))
 
 
